@@ -262,30 +262,41 @@ theorem mem_dictOf_iff {β : Type} (ps : List (Str × β)) (k : Str) (v : β) :
     rw [← lookup_dictOf, lookup_eq_dictGet_of_nodup _ hn] at h
     exact dictGet_mem _ k v h
 
-/-- the candidate attributes before `omit`: field names, and names the renaming maps to a field -/
-theorem mem_renAttrs (fields : List Str) (ren : List (Str × Str)) (x : Str) :
-    x ∈ renAttrs fields ren ↔ x ∈ fields ∨ ∃ f, dictGet ren x = some f ∧ f ∈ fields := by
-  unfold renAttrs
-  simp only [List.mem_append, List.mem_map, List.mem_filter, Bool.and_eq_true, Bool.not_eq_true']
-  constructor
-  · rintro (h | ⟨⟨k, v⟩, ⟨hm, hv, _⟩, rfl⟩)
-    · exact Or.inl h
-    · exact Or.inr ⟨v, (mem_dictOf_iff _ _ _).mp hm, by simpa using hv⟩
-  · rintro (h | ⟨f, hd, hf⟩)
-    · exact Or.inl h
-    · by_cases hx : x ∈ fields
-      · exact Or.inl hx
-      · exact Or.inr ⟨(x, f), ⟨(mem_dictOf_iff _ _ _).mpr hd, by simpa using hf, by simpa using hx⟩, rfl⟩
+theorem mem_keys_dictOf (ren : List (Str × Str)) (x : Str) :
+    x ∈ keys (dictOf ren) ↔ (dictGet ren x).isSome = true := by
+  rw [mem_keys_iff_lookup, lookup_dictOf]
 
-/-- **set_by_object_reads** (full since fix 2460dd6) — the attributes looked at on the object are
-    exactly the declared field names and the names the renaming (as a mapping) sends to a declared
-    field, minus the omitted ones; for Dict and SparseDict alike (fix 29e8575). -/
+/-- the candidate attributes before `omit`: unrenamed field names, and names renamed to a field -/
+theorem mem_renAttrs (fields : List Str) (ren : List (Str × Str)) (x : Str) :
+    x ∈ renAttrs fields ren ↔
+      (x ∈ fields ∧ dictGet ren x = none) ∨ ∃ f, dictGet ren x = some f ∧ f ∈ fields := by
+  unfold renAttrs
+  simp only [List.mem_append, List.mem_map, List.mem_filter, Bool.not_eq_true', List.contains_eq_mem,
+    decide_eq_false_iff_not, decide_eq_true_eq, mem_keys_dictOf]
+  constructor
+  · rintro (⟨h1, h2⟩ | ⟨⟨k, v⟩, ⟨hm, hv⟩, rfl⟩)
+    · left; refine ⟨h1, ?_⟩
+      cases hd : dictGet ren x with
+      | none => rfl
+      | some w => simp [hd] at h2
+    · exact Or.inr ⟨v, (mem_dictOf_iff _ _ _).mp hm, hv⟩
+  · rintro (⟨h1, h2⟩ | ⟨f, hd, hf⟩)
+    · exact Or.inl ⟨h1, by simp [h2]⟩
+    · exact Or.inr ⟨(x, f), ⟨(mem_dictOf_iff _ _ _).mpr hd, hf⟩, rfl⟩
+
+/-- **set_by_object_reads** (full since fixes 2460dd6 / 786474b) — the attributes looked at on the
+    object are exactly those whose destination (rename target, else own name) is a declared field,
+    minus the omitted ones that are not renamed; for Dict and SparseDict alike (fix 29e8575). -/
 theorem set_by_object_reads (S : Schema V) (e : Elem V) (o : Obj V) (a : Args)
     (hx : Exclusive a) (x : Str) :
     x ∈ (setByObject S e o a).reads ↔ readSet S.fields a x := by
   rw [reads_eq S e o a hx, candidates, mem_sortStrs, List.mem_filter, mem_renAttrs]
-  unfold readSet renameTo
-  simp
+  unfold readSet dest renameTo
+  simp only [Bool.not_eq_true', Bool.and_eq_false_iff, List.contains_eq_mem, decide_eq_false_iff_not,
+    Bool.not_eq_false', decide_eq_true_eq, mem_keys_dictOf]
+  cases hd : dictGet a.ren x with
+  | none => simp
+  | some t => simp
 
 /-- the third clause of the property, as a closed statement -/
 def C20_Full : Prop :=
@@ -386,23 +397,23 @@ theorem dictSetValue_nonstrict (S : Schema V) (final : List (Str × V)) (hpol : 
 theorem renAttrs_nodup (fields : List Str) (ren : List (Str × Str)) (h : fields.Nodup) : (renAttrs fields ren).Nodup := by
   unfold renAttrs
   rw [List.nodup_append]
-  refine ⟨h, ?_, ?_⟩
+  refine ⟨h.filter _, ?_, ?_⟩
   · have hk := keys_dictOf_nodup ren
     unfold keys at hk
     exact List.Nodup.sublist (List.Sublist.map _ List.filter_sublist) hk
   · intro a ha b hb hab
     subst hab
     obtain ⟨p, hp, rfl⟩ := List.mem_map.mp hb
-    simp only [List.mem_filter, Bool.and_eq_true, Bool.not_eq_true'] at hp
-    have : p.1 ∉ fields := by simpa using hp.2.2
-    exact this ha
+    have hk : p.1 ∈ keys (dictOf ren) := List.mem_map_of_mem (f := (·.1)) (List.mem_filter.mp hp).1
+    have := (List.mem_filter.mp ha).2
+    simp [hk] at this
 
 theorem candidates_sorted (fields : List Str) (a : Args) (hf : fields.Nodup) :
     (candidates fields a).Pairwise (fun x y => strLt x y = true) := by
   unfold candidates sortStrs
-  have hn : ((renAttrs fields a.ren).filter fun x => !a.om.contains x).Nodup :=
-    (renAttrs_nodup fields a.ren hf).filter _
-  have hs := sorted_sortByKey (((renAttrs fields a.ren).filter fun x => !a.om.contains x).map fun s => (s, ()))
+  generalize (fun x => !(a.om.contains x && !(keys (dictOf a.ren)).contains x)) = keep
+  have hn : ((renAttrs fields a.ren).filter keep).Nodup := (renAttrs_nodup fields a.ren hf).filter _
+  have hs := sorted_sortByKey (((renAttrs fields a.ren).filter keep).map fun s => (s, ()))
     (by simpa [keys, List.map_map, Function.comp_def] using hn)
   unfold SortedKeys at hs
   exact List.Pairwise.map _ (fun _ _ h => h) hs
@@ -545,13 +556,15 @@ theorem object_roundtrip_final (S : Schema V) (e : Elem V) (o : Obj V) (a : Args
   have hcand : ∀ x, x ∈ candidates S.fields a2 ↔ x ∈ S.fields ∨ x ∈ a.ren.map (·.2) := by
     intro x
     rw [candidates, ha2r, mem_sortStrs, List.mem_filter, mem_renAttrs]
-    simp only [ha2o, List.contains_nil, Bool.not_false, and_true]
+    simp only [ha2o, List.contains_nil, Bool.false_and, Bool.not_false, and_true]
     constructor
     · rintro (h | ⟨f, hd, _⟩)
-      · exact Or.inl h
+      · exact Or.inl h.1
       · exact Or.inr (List.mem_map_of_mem (f := (·.2)) ((mem_swapPairs _ _ _).mp (dictGet_mem _ _ _ hd)))
     · rintro (h | h)
-      · exact Or.inl h
+      · refine Or.inl ⟨h, (dictGet_none_iff _ _).mpr ?_⟩
+        intro k hk
+        exact htgtF _ ((mem_swapPairs _ _ _).mp hk) h
       · obtain ⟨⟨k, t⟩, hkt, rfl⟩ := List.mem_map.mp h
         exact Or.inr ⟨k, dictGet_of_nodup _ hswapN t k ((mem_swapPairs _ _ _).mpr hkt), hsrcF _ hkt⟩
   -- what a pair of `final` with a field key can be
